@@ -171,6 +171,30 @@ pub fn scenarios() -> Vec<Scn> {
       v.push(pipeline_scn(name, &fam, b.clone(), vec![vec![C], vec![N(1), C]], via_map, if via_map { None } else { Some(2) }, Some(3)));
     }
   }
+  // two racing inputs, merged, then one operator with state of its own before the subscriber
+  let after: Vec<(&str, Build)> = vec![
+    ("merge.scan", Arc::new(|h: &[Hot<i64>]| h[0].observable().merge(&[h[1].observable()]).scan(|(a, b)| a + b))),
+    ("merge.distinct_until_changed", Arc::new(|h: &[Hot<i64>]| h[0].observable().merge(&[h[1].observable()]).distinct_until_changed())),
+    ("merge.buffer_with_count(2)", Arc::new(|h: &[Hot<i64>]| h[0].observable().merge(&[h[1].observable()]).buffer_with_count(2).map(|v| v.iter().sum()))),
+    ("merge.take(2)", Arc::new(|h: &[Hot<i64>]| h[0].observable().merge(&[h[1].observable()]).take(2))),
+    ("merge.take_last(1)", Arc::new(|h: &[Hot<i64>]| h[0].observable().merge(&[h[1].observable()]).take_last(1))),
+    ("merge.skip(1)", Arc::new(|h: &[Hot<i64>]| h[0].observable().merge(&[h[1].observable()]).skip(1))),
+    ("merge.take_while(<3)", Arc::new(|h: &[Hot<i64>]| h[0].observable().merge(&[h[1].observable()]).take_while(|x| x < 3))),
+    ("merge.default_if_empty", Arc::new(|h: &[Hot<i64>]| h[0].observable().merge(&[h[1].observable()]).default_if_empty(9))),
+    ("merge.start_with", Arc::new(|h: &[Hot<i64>]| h[0].observable().merge(&[h[1].observable()]).start_with([9i64].into_iter()))),
+    ("merge.window_with_count(2).flat_map", Arc::new(|h: &[Hot<i64>]| h[0].observable().merge(&[h[1].observable()]).window_with_count(2).flat_map(|w| w))),
+    ("merge.group_by.flat_map", Arc::new(|h: &[Hot<i64>]| h[0].observable().merge(&[h[1].observable()]).group_by(|x| x % 2).flat_map(|g| g))),
+    ("merge.materialize.dematerialize", Arc::new(|h: &[Hot<i64>]| h[0].observable().merge(&[h[1].observable()]).materialize().dematerialize())),
+    ("merge.on_error_resume_next(just)", Arc::new(|h: &[Hot<i64>]| h[0].observable().merge(&[h[1].observable()]).on_error_resume_next(|_| observables::just(99)))),
+    ("merge.count", Arc::new(|h: &[Hot<i64>]| h[0].observable().merge(&[h[1].observable()]).count().map(|n| n as i64))),
+    ("merge.ref_count", Arc::new(|h: &[Hot<i64>]| h[0].observable().merge(&[h[1].observable()]).ref_count().observable())),
+  ];
+  for (name, b) in &after {
+    let fam = "merge-then-stateful-operator".to_string();
+    v.push(pipeline_scn(name, &fam, b.clone(), vec![vec![N(1), E(7)], vec![N(2), N(3)]], false, Some(2), Some(3)));
+    v.push(pipeline_scn(name, &fam, b.clone(), vec![vec![N(1), C], vec![N(2), E(8)]], false, Some(1), Some(3)));
+    v.push(pipeline_scn(name, &fam, b.clone(), vec![vec![E(7)], vec![E(8)]], false, None, Some(3)));
+  }
   let trig: Vec<(&str, Build)> = vec![
     ("take_until", Arc::new(|h: &[Hot<i64>]| h[0].observable().take_until(h[1].observable()))),
     ("skip_until", Arc::new(|h: &[Hot<i64>]| h[0].observable().skip_until(h[1].observable()))),
